@@ -4,5 +4,6 @@ CONSTANTS
   MaxR = 6
   GenDraws = 6
   MetricDraws = 6
+  LevMaxCols = 4
   LevDraws = 6
 INVARIANT SpecOK
